@@ -1,5 +1,6 @@
 import SigHook.Props.Packed
 import SigHook.Model.ChannelGen
+import SigHook.Props.C07
 /-!
 # C08 — Channel operations never block or panic, even nested inside each other
 
@@ -47,5 +48,29 @@ example : ((runSched genOrders (Sys.init [[.send 1, .send 2, .send 3, .send 4, .
       ((List.replicate 6 [(0, ({} : Choice)), (0, ({ spurious := true } : Choice)), (0, {}), (0, {}), (0, {}),
                           (0, ({ spurious := true } : Choice)), (0, {})]).flatten)).2.all (fun o => o.panic.isNone)) = true := by
   decide +kernel
+
+
+/-! ## No panic in any execution -/
+
+/-- **C08.never_panics** — in every reachable state (any number of threads, any scripts, every
+interleaving, every stale read / spurious failure), no step panics: `enqueue` always finds room -
+although its loads are relaxed and may return old queue values, every value an owner can still
+read lacks its index - and `recv` always finds the payload in the slot it dequeued. -/
+theorem C08_never_panics {scripts : List (List Cmd)} {s s' : Sys} {t : Nat} {c : Choice} {out : Out}
+    (hr : Reachable genOrders scripts s) (hs : step genOrders s t c = some (s', out)) : out.panic = none :=
+  (inv_step C07_orderings_side_condition.1 C07_orderings_side_condition.2
+    (inv_reachable C07_orderings_side_condition.1 C07_orderings_side_condition.2 hr) hs).2.1
+
+/-- **C08.always_enabled_and_safe** — the two halves together: a busy thread always has a step
+(whatever the other threads are doing), and that step neither panics nor races. -/
+theorem C08_progress_without_panic {scripts : List (List Cmd)} {s : Sys} {t : Nat} {c : Choice} {th : Thread}
+    (hr : Reachable genOrders scripts s) (hth : s.threads[t]? = some th) (hbusy : th.pc ≠ .idle ∨ th.script ≠ []) :
+    ∃ s' out, step genOrders s t c = some (s', out) ∧ out.panic = none ∧ out.race = false := by
+  have := C08_never_waits genOrders s t c th hth hbusy
+  cases hs : step genOrders s t c with
+  | none => rw [hs] at this; cases this
+  | some r =>
+    obtain ⟨s', out⟩ := r
+    exact ⟨s', out, rfl, C08_never_panics hr hs, C07_race_free_declared hr hs⟩
 
 end SigHook.Channel
